@@ -39,6 +39,8 @@ type caseT struct {
 	Changed     map[string][2]string `json:"changed_files_old_new,omitempty"`
 	ImageOrder  [][]string           `json:"image_file_order_old_new,omitempty"`
 	Imports     string               `json:"import_configuration,omitempty"`
+	MapSeed     string               `json:"map_seed,omitempty"`
+	PerSeed     map[string]string    `json:"clean_c_or_dirty_D_per_category_under_map_seeds_0_1_etc,omitempty"`
 }
 
 func changed(oldR, newR *c03.Rendered) map[string][2]string {
@@ -233,6 +235,7 @@ func run(r *evid.Run) {
 		"(a, options) a small schema under option profiles (every observed file / message / field / enum / method option set at once with pairwise different values; each file option, field option, message / enum / method option alone; explicit defaults; edition features) x proto2 / proto3 / edition 2023: identity (two builds), re-renderings (everything at once; the options of every element in reverse order) in both directions, three index-shifting additive steps; "+
 		"(a + b, import configurations) the bases with a file importing a.proto and b.proto, both images restricted (ImageWithOnlyPaths = --path; and built as module api of a two-module buf.yaml v2 workspace) so that a.proto and / or b.proto are imports, x imports included (CLI default) / excluded: identity, two re-renderings, every additive operator at its canonical site; hierarchy for one catalogue instance per operator and set of expected rules (thorough: and position; also with the file an import on one side only); "+
 		"(a, many files) thread parallelism set to 2, 3 (thorough: 4, 5 and the machine's own) in a serial section: modules of n small files (layouts own-package / packages of three, without imports / every fourth file importing the next two) for every n from one below the switch-over of bufprotosource.NewFiles to parallel chunks (8 files per unit of parallelism) through every remainder to the next multiple, and every remainder in the second round of chunks: identity (two builds), every ordered pair of 3 renderings (canonical, imports reversed = other image order, everything), every chain of length <= 2 over 4 additive operators (new file sorting first / in the middle / last, new import of a late file), each S_i against every earlier S_j; "+
+		"(b, map iteration order) one proto2 module whose every handler-walked map has 2..6 entries (three extended messages, six messages, five enums, three services, three files in two packages): every pair (removal of one previous element: all extensions of a message / one extension / message / nested message / field / oneof / enum / nested enum / enum value / service / method / file) x (breaking change of a sibling: extension or field type, field leaves oneof, field deleted, required field added, enum value deleted / renamed, rpc request / response type, file option) of the same handler family (removed files: with every kind of change), base vs both edits, every category x map-iteration seed 0..5 (= every rotation of every such map; process-wide seed of the runtime overlay, serial outer loop; quick: all changes that go through the loop the removed element sits in and one or two of the others, v2 for every pair, v1 for the first removal of every kind with the first change of every kind, v1beta1 for the first pair of every kind of removal; thorough: every pair of a family, all versions): clean(strict) under one order => clean(lax) under every order, and a category's verdict does not depend on the order; "+
 		"(b) hierarchy: every (old,new) pair of the C03 catalogue (quick: without surrounding; v2 at every position, field-type table at the top position only; v1beta1 and v1 on the first top / file position instance of every operator + set of expected rules; thorough: every position and version, also with the index-shifting surrounding) and every ordered pair of edited schemas of a base (quick: one per distinct expected-rule set, <=28, v2; thorough: one per operator+variant, <=60, all versions); "+
 		"distinct key = kind/pair id; a pair is non-trivial when old and new differ", len(styles)-2, maxChain))
 	r.Assume("'additive' is the property's list: new files, messages, enums, services, RPCs, oneofs (with new fields), reserved ranges/names, enum values and non-required fields with fresh numbers and names, new imports; extensions with fresh numbers are treated as non-required fields")
@@ -240,7 +243,7 @@ func run(r *evid.Run) {
 	r.Assume("rule handlers run independently of each other, so intermediate chain pairs (and, in the quick tier, the end-to-end pairs of chains of length 2 and most file-set pairs) run under use:[FILE,PACKAGE,WIRE_JSON,WIRE] only; single steps run under each category separately")
 	r.Assume("buf.yaml v1beta1 / v1 / v2 differ in which rules a category contains, not in the rule handlers: the quick tier runs the older versions of the catalogue hierarchy on one instance per operator and set of expected rules")
 
-	phases := map[string]bool{"cosmetic": true, "additive": true, "manyfiles": true, "filesets": true, "options": true, "imports": true, "catalogue": true, "pairs": true}
+	phases := map[string]bool{"cosmetic": true, "additive": true, "manyfiles": true, "filesets": true, "options": true, "imports": true, "maporder": true, "catalogue": true, "pairs": true}
 	allPhases := len(phases)
 	onlyOps := map[string]bool{}
 	if v := os.Getenv("VERIF_C04_PHASES"); v != "" {
@@ -454,6 +457,11 @@ func run(r *evid.Run) {
 		x.runImports(full, cats, unions)
 	}
 
+	// ---------------------------------------------------------------- (b) hierarchy under every map iteration order
+	if phases["maporder"] && len(onlyOps) == 0 && !r.Expired() {
+		x.runMapOrder(full)
+	}
+
 	// ---------------------------------------------------------------- (b) hierarchy over the C03 catalogue
 	process := func(instances []c03.Instance) {
 		if len(onlyOps) > 0 {
@@ -610,7 +618,9 @@ func run(r *evid.Run) {
 		"hierarchy-imports_pairs_catalogue", "imports_hierarchy_pairs_with_the_edit_inside_an_imported_file",
 		"imports_silent_pairs_through_a_workspace", "imports_hierarchy_pairs_through_a_workspace",
 		"hierarchy-imports_antecedent_true_FILE", "hierarchy-imports_antecedent_true_PACKAGE", "hierarchy-imports_antecedent_true_WIRE_JSON",
-		"hierarchy_antecedent_true_FILE", "hierarchy_antecedent_true_PACKAGE", "hierarchy_antecedent_true_WIRE_JSON"} {
+		"hierarchy_antecedent_true_FILE", "hierarchy_antecedent_true_PACKAGE", "hierarchy_antecedent_true_WIRE_JSON",
+		"map_order_pairs", "map_order_pairs_v1beta1", "map_order_pairs_v1", "map_order_pairs_v2",
+		"map_order_consequent_false_PACKAGE", "map_order_consequent_false_WIRE_JSON", "map_order_consequent_false_WIRE"} {
 		if x.n[k] == 0 {
 			r.Incomplete("clause never exercised: " + k)
 		}
